@@ -71,6 +71,8 @@ type c20Ctrl struct {
 func c20CtrlBody(st *c20Ctrl, startAt int64, ap [2]string, epochs int, attestDur int64) {
 	*st = c20Ctrl{w: &c03World{attKinds: ap, propKinds: [2]string{"A", "C"}, startAt: startAt, reorgAt: -1, attestDur: attestDur}}
 	w := st.w
+	// the schedule bound (where a unit has one) applies to the instant at which the reorg event is handled
+	mc.SetDeviations(false)
 	ctx, cancel := mcontext.WithCancel(context.Background())
 	defer cancel()
 	ct := newChainTime(-(int64(c03Epoch0*c03SPE)*int64(c03SlotDur) + startAt), c03SlotDur, c03SPE)
@@ -148,7 +150,7 @@ func c20CtrlBody(st *c20Ctrl, startAt int64, ap [2]string, epochs int, attestDur
 			bad("pending-map-grows", "%s: %d entries in the pending attestations map", when, n)
 		}
 		for _, e := range ctrl.VerifC20SubscriptionInfoEpochs() {
-			if e+3 < curEpoch {
+			if e+2 < curEpoch {
 				bad("stale-subscription-info", "%s: subscription information for epoch %d is still held in epoch %d", when, e, curEpoch)
 			}
 		}
@@ -164,15 +166,28 @@ func c20CtrlBody(st *c20Ctrl, startAt int64, ap [2]string, epochs int, attestDur
 	// the slot (offset from the start) and kind of the one reorg, or none
 	reorgSlot := -1
 	reorgKind := ""
+	reorgSecs := int64(1)
 	if ap[0] != ap[1] {
 		reorgSlot = 1 + mc.Choose(2*c03SPE)
+		if epochs <= 2 {
+			reorgSlot = 1 + mc.Choose(c03SPE)
+		}
 		reorgKind = []string{"prev", "cur"}[mc.Choose(2)]
+		// one second into the slot, or six: after the slot's attestation time, so that a duty the reorg moves
+		// into the slot is due at once
+		reorgSecs = []int64{1, 6}[mc.Choose(2)]
 	}
+
 	lastEpoch := phase0.Epoch(c03Epoch0)
-	end := phase0.Slot((c03Epoch0 + uint64(epochs)) * c03SPE)
+	end := phase0.Slot((uint64(c03Epoch0) + uint64(epochs)) * c03SPE)
+	// the first slot of every epoch after the first may be empty (no block, hence no head event in it)
+	skipFirst := mc.Choose(2) == 1
 	for s := w.slotAt(mc.Now()); s < end; s++ {
 		// a head event one second into every slot, as a beacon node delivers
 		at := w.slotStart(s) + int64(time.Second)
+		if skipFirst && uint64(s)%c03SPE == 0 && int(s)-c03Epoch0*c03SPE != reorgSlot {
+			at = -1
+		}
 		if at > mc.Now() {
 			mc.Sleep(at - mc.Now())
 			e := phase0.Epoch(uint64(s) / c03SPE)
@@ -181,7 +196,13 @@ func c20CtrlBody(st *c20Ctrl, startAt int64, ap [2]string, epochs int, attestDur
 				lastEpoch = e
 			}
 			kind := "same"
-			if int(s)-c03Epoch0*c03SPE == reorgSlot {
+			isReorg := int(s)-c03Epoch0*c03SPE == reorgSlot
+			if isReorg && reorgSecs > 1 {
+				// the slot's ordinary head event first, the reorg later in the slot
+				deliver(kind, prev, cur)
+				mc.Sleep((reorgSecs - 1) * int64(time.Second))
+			}
+			if isReorg {
 				kind = reorgKind
 				if kind == "prev" {
 					prev += 0x40
@@ -190,15 +211,92 @@ func c20CtrlBody(st *c20Ctrl, startAt int64, ap [2]string, epochs int, attestDur
 				}
 				w.version = 1
 				st.reorgs++
+				mc.SetDeviations(true)
 			}
 			deliver(kind, prev, cur)
+			if isReorg {
+				mc.Sleep(int64(time.Millisecond))
+				mc.SetDeviations(false)
+			}
 		}
 		// observe shortly after the event and at the end of the slot
-		mc.Sleep(int64(time.Second))
-		observe(fmt.Sprintf("slot %d +2s", s))
+		if rest := w.slotStart(s) + int64(2*time.Second) - mc.Now(); rest > 0 {
+			mc.Sleep(rest)
+			observe(fmt.Sprintf("slot %d +2s", s))
+		} else {
+			mc.Sleep(int64(time.Second))
+			observe(fmt.Sprintf("slot %d +%ds", s, (mc.Now()-w.slotStart(s))/int64(time.Second)))
+		}
 		mc.Sleep(w.slotStart(s+1) - int64(100*time.Millisecond) - mc.Now())
 		observe(fmt.Sprintf("end of slot %d", s))
 	}
+	w.done = true
+}
+
+// c20DueJobBody: a controller without duties at first; six seconds into the third slot of the epoch the
+// beacon node's table has duties in that slot and the next, and the controller's scheduling of the epoch runs.
+func c20DueJobBody(st *c20Ctrl, nDuties int) {
+	*st = c20Ctrl{w: &c03World{attKinds: [2]string{"G", "H"}, propKinds: [2]string{"C", "C"}, reorgAt: -1}}
+	if nDuties == 2 {
+		st.w.attKinds[1] = "I"
+	}
+	w := st.w
+	mc.SetDeviations(false)
+	ctx, cancel := mcontext.WithCancel(context.Background())
+	defer cancel()
+	ct := newChainTime(-(int64(c03Epoch0*c03SPE) * int64(c03SlotDur)), c03SlotDur, c03SPE)
+	sched, err := advanced.New(ctx, advanced.WithLogLevel(zerolog.Disabled), advanced.WithMonitor(&nullmetrics.Service{}))
+	must(err)
+	byIndex := map[phase0.ValidatorIndex]*hAccount{}
+	for i := 1; i <= 3; i++ {
+		byIndex[phase0.ValidatorIndex(i)] = newAccount("W", fmt.Sprintf("v%d", i), byte(i))
+	}
+	accts := &accountsTable{byIndex: byIndex}
+	ctrl, err := standardcontroller.New(ctx,
+		standardcontroller.WithLogLevel(zerolog.Disabled), standardcontroller.WithMonitor(nullmetrics.New()),
+		standardcontroller.WithSpecProvider(&specProvider{m: baseSpec(c03SlotDur, c03SPE)}), standardcontroller.WithChainTimeService(ct),
+		standardcontroller.WithProposerDutiesProvider(w), standardcontroller.WithAttesterDutiesProvider(w),
+		standardcontroller.WithSyncCommitteeDutiesProvider(vouchmock.NewSyncCommitteeDutiesProvider()), standardcontroller.WithEventsProvider(&eventsProvider{}),
+		standardcontroller.WithValidatingAccountsProvider(accts), standardcontroller.WithProposalsPreparer(mockproposalpreparer.New()),
+		standardcontroller.WithScheduler(sched), standardcontroller.WithAttester(w), standardcontroller.WithBeaconBlockProposer(w),
+		standardcontroller.WithBeaconCommitteeSubscriber(mockbeaconcommitteesubscriber.New()), standardcontroller.WithAttestationAggregator(mockattestationaggregator.New()),
+		standardcontroller.WithAccountsRefresher(mockaccountmanager.NewRefresher()),
+		standardcontroller.WithBlockToSlotSetter(mockcache.New(map[phase0.Root]phase0.Slot{}).(cache.BlockRootToSlotSetter)),
+		standardcontroller.WithBeaconBlockHeadersProvider(vouchmock.NewBeaconBlockHeadersProvider()), standardcontroller.WithSignedBeaconBlockProvider(vouchmock.NewSignedBeaconBlockProvider()),
+		standardcontroller.WithMaxAttestationDelay(c03Delay), standardcontroller.WithAttestationAggregationDelay(8*time.Second),
+	)
+	must(err)
+	first := phase0.Slot(c03Epoch0 * c03SPE)
+	due := first + 2
+	mc.Sleep(w.slotStart(due) + int64(6*time.Second) - mc.Now())
+	w.version = 1
+	mc.SetDeviations(true)
+	ctrl.VerifScheduleAttestations(ctx, phase0.Epoch(c03Epoch0), []phase0.ValidatorIndex{1, 2, 3}, false)
+	mc.Sleep(int64(time.Millisecond))
+	mc.SetDeviations(false)
+	observe := func(when string) {
+		st.obs++
+		hasJob := map[phase0.Slot]bool{}
+		for _, j := range sched.ListJobs(ctx) {
+			var s uint64
+			if n, _ := fmt.Sscanf(j, "Attestations for slot %d", &s); n == 1 {
+				hasJob[phase0.Slot(s)] = true
+			}
+		}
+		for s := first; s < first+2*c03SPE; s++ {
+			p := ctrl.HasPendingAttestations(ctx, s)
+			if p && !hasJob[s] && st.fail == "" {
+				st.fail, st.key = fmt.Sprintf("%s: slot %d is reported as having pending attestations but no attestation job for it exists or is running", when, s), "pending-mark-without-job"
+			}
+			if !p && hasJob[s] && st.fail == "" {
+				st.fail, st.key = fmt.Sprintf("%s: an attestation job for slot %d exists but the slot is not reported as pending", when, s), "job-without-pending-mark"
+			}
+		}
+	}
+	mc.Sleep(int64(time.Second))
+	observe("one second after the scheduling")
+	mc.Sleep(w.slotStart(due+2) - mc.Now())
+	observe("two slots later")
 	w.done = true
 }
 
@@ -464,6 +562,64 @@ func c20Units(tier string) []hx.Unit {
 			units = append(units, u)
 		}
 	}
+	// ctrl, one schedule deviation while the reorg event is handled: shorter runs (two epochs, the reorg in one
+	// of the first four slots) for the tables that move duties — into the slot in progress, among others
+	// (thorough: for every table pair that has a reorg)
+	var pairs1 [][2]string // thorough only: each execution replays two epochs of controller activity
+	if tier == "thorough" {
+		pairs1 = [][2]string{{"A", "B"}, {"E", "B"}, {"A", "C"}, {"E", "C"}, {"B", "A"}, {"C", "A"}}
+	}
+	for si, sa := range starts {
+		for _, ap := range pairs1 {
+			sa, ap := sa, ap
+			st := &c20Ctrl{}
+			u := hx.Unit{Name: fmt.Sprintf("C20/ctrl-1dev/start%d/att%s%s", si, ap[0], ap[1]), Cfg: mc.Config{Deviation: true, Horizon: int64(60 * c03SlotDur)}, Bound: 1}
+			u.Body = func() { c20CtrlBody(st, sa, ap, 2, 0) }
+			u.Check = func(r *mc.Result) mc.Verdict {
+				v := mc.Verdict{Outcome: fmt.Sprintf("ctrl-1dev reorgs=%d attests=%d", st.reorgs, len(st.w.attests)), Nontrivial: true}
+				v.Sample = fmt.Sprintf("controller run (one deviation at the reorg) start=+%.0fs duties %s->%s events [%s]: %d observations, %d pending marks seen", float64(sa)/1e9, ap[0], ap[1], strings.Join(st.w.events, " "), st.obs, st.pending)
+				switch {
+				case r.Panic != "":
+					v.Violation, v.Key = v.Sample+": panic: "+firstLine(r.Panic), "C20/ctrl/panic/"+panicSite(r.Panic)
+				case st.fail != "":
+					v.Violation, v.Key = v.Sample+": "+st.fail, "C20/ctrl/"+st.key
+				case !st.w.done:
+					v.Violation, v.Key = v.Sample+": the run never finished", "C20/ctrl/never-finished"
+				}
+				return v
+			}
+			units = append(units, u)
+		}
+	}
+	// ctrl, a job that is due when it is set up: the epoch's attestations are scheduled six seconds into a
+	// slot in which a validator has a duty (the beacon node was slow to answer the duty request of the epoch
+	// preparation): the job runs at once, while the scheduling is still going on.  Preemption bounding (one
+	// preemption; timer firings and choices at blocking points are free) confined to that instant.
+	for _, nDuties := range []int{1, 2} {
+		nDuties := nDuties
+		st := &c20Ctrl{}
+		u := hx.Unit{Name: fmt.Sprintf("C20/ctrl-due-job/duties-%d", nDuties), Cfg: mc.Config{Horizon: int64(60 * c03SlotDur)}, Bound: 1}
+		if tier == "thorough" {
+			u.Bound = 2
+		}
+		u.Body = func() { c20DueJobBody(st, nDuties) }
+		u.Check = func(r *mc.Result) mc.Verdict {
+			v := mc.Verdict{Outcome: fmt.Sprintf("ctrl-due-job attests=%d", len(st.w.attests)), Nontrivial: true}
+			v.Sample = fmt.Sprintf("attestations of the epoch scheduled 6 s into a slot with %d duties: %d observations, %d attestations made", nDuties, st.obs, len(st.w.attests))
+			switch {
+			case r.Panic != "":
+				v.Violation, v.Key = v.Sample+": panic: "+firstLine(r.Panic), "C20/ctrl/panic/"+panicSite(r.Panic)
+			case st.fail != "":
+				v.Violation, v.Key = v.Sample+": "+st.fail, "C20/ctrl/"+st.key
+			case !st.w.done:
+				v.Violation, v.Key = v.Sample+": the run never finished", "C20/ctrl/never-finished"
+			case len(st.w.attests) != 2:
+				v.Violation, v.Key = fmt.Sprintf("%s: harness: expected the due job and the next slot's job to run", v.Sample), "C20/ctrl/harness-due-job"
+			}
+			return v
+		}
+		units = append(units, u)
+	}
 	// attested
 	for first := 0; first < 3; first++ {
 		first := first
@@ -678,13 +834,13 @@ func init() {
 	hx.Register(&hx.Prop{
 		ID:    "C20",
 		Title: "Vouch's memory and goroutines stay bounded, and shutdown accounting is exact",
-		Rule: "ctrl: the real controller + scheduler run for 4 (thorough 6) epochs from 2 start instants with 6 attester duty-table pairs (dense / sparse, reorg that drops or moves duties) and an attester that returns at once, plus 5 pairs with an attester that takes 14 s (still at work at the next slot's head event), x position and kind of the reorg event, a head event every slot; at +2 s and at the end of every slot: job names, pending-attestation marks (exactly the slots with an attestation job listed or attestations in flight), subscription-information epochs inside a fixed window; " +
+		Rule: "ctrl: the real controller + scheduler run for 4 (thorough 6) epochs from 2 start instants with 6 attester duty-table pairs (dense / sparse, reorg that drops or moves duties) and an attester that returns at once, plus 5 pairs with an attester that takes 14 s (still at work at the next slot's head event), x position (any of 8 slots, 1 s or 6 s into it), kind of the reorg event, a head event every slot (or every slot but the first of each epoch), the default schedule; thorough: plus two-epoch runs for all reorg pairs under every schedule with one deviation while the reorg event is handled; at +2 s and at the end of every slot: job names, pending-attestation marks (exactly the slots with an attestation job listed or attestations in flight), subscription-information epochs inside a fixed window; " +
 			"attested: the real attester over every 6-epoch (thorough 8) pattern of {attests, data fetch fails, no duty}; sync: the real sync messenger + aggregator over every 8-slot (thorough 12) pattern of {selected as aggregator, not selected, beacon node gives no head root}; a slot that records a root leaves no root outside the window and at most 4 are ever retained; " +
 			"leak: each `first` / best / majority strategy with three nodes x {answer at 0 s / 2 s, never, late} x {valid, error}, unblinding with three relays, the deadline auction with three relays; after all timeouts no goroutine started by vouch may be blocked; deviation-bounded schedules; " +
-			"non-trivial = a reorg happened / pending marks were observed / any attested, sync or leak case",
+			"ctrl-due-job: the controller's scheduling of an epoch run six seconds into a slot that has a duty (the job is due at once), under every schedule with one preemption (thorough two) at that instant; non-trivial = a reorg happened / pending marks were observed / any attested, sync or leak case",
 		Assumptions: []string{
 			"a goroutine is leaked when it is parked on a lock, channel or condition that nothing can release at the end of the horizon; goroutines parked inside a scripted node that never answers are environment, not vouch",
-			"the fixed windows are: jobs 2 slots, subscription information 3 epochs, attested validators 3 epochs, sync head roots 3 slots",
+			"the fixed windows are: jobs 2 slots, subscription information 2 epochs back, attested validators 3 epochs, sync head roots 3 slots",
 		},
 		Units:         c20Units,
 		MinNontrivial: 50,
